@@ -49,4 +49,24 @@ exists d, P; exists 0%N, (0 : 'cV[F]_0), (0 : 'M[F]_(n, 0)); split=> //.
 - by split=> //; [rewrite trmx0 mul0mx | apply/matrixP => -[]].
 Qed.
 
+(* ---- the reduced-QR contract is satisfiable ------------------------------------------------ *)
+Lemma qr_exists_b n m k (C : 'M[F]_(n, m)) : k = minn n m ->
+  exists QR : 'M[F]_(n, k) * 'M[F]_(k, m), (QR.1 *m QR.2 == C) && (QR.1^T *m QR.1 == 1%:M).
+Proof.
+by move=> e; have [Q [R [h1 h2]]] := qr_exists C e; exists (Q, R); rewrite /= h1 h2 !eqxx.
+Qed.
+
+Definition qr_pair n m k (C : 'M[F]_(n, m)) : 'M[F]_(n, k) * 'M[F]_(k, m) :=
+  match k =P minn n m with
+  | ReflectT e => xchoose (qr_exists_b C e)
+  | ReflectF _ => (0, 0)
+  end.
+
+Theorem qr_contract_satisfiable :
+  qr_contract (fun n m k (C : 'M[F]_(n, m)) => (qr_pair k C).1) (fun n m k (C : 'M[F]_(n, m)) => (qr_pair k C).2).
+Proof.
+move=> n m k C e; rewrite /qr_pair; case: eqP => // e'.
+by have /andP [/eqP h1 /eqP h2] := xchooseP (qr_exists_b C e').
+Qed.
+
 End SpectralConsequences.
